@@ -236,7 +236,7 @@ HARNESSES = [
                   '_invalidate_creating/_tpc_cleanup/close/open', 'ObjectWriter.serialize', 'DB.open/_returnToPool'],
             quick=dict(timeout=400, shards=shards(n=[3], storage=['file'], first=CODES + FIRST_ONLY) + shards(n=[4], storage=['file'], first=_FIRST)),
             thorough=dict(timeout=3000, shards=shards(n=[3], storage=['file', 'mapping', 'demo'], first=['any'])
-                          + shards(n=[4], storage=['file', 'mapping'], first=CODES + FIRST_ONLY) + shards(n=[5], storage=['file'], first=CODES))),
+                          + shards(n=[4], storage=['file', 'mapping'], first=CODES + FIRST_ONLY) + shards(n=[5], storage=['file'], first=CODES + FIRST_ONLY))),
     Harness('new_objects', _roundtrip,
             decides='a commit stores exactly the new objects reachable from changed ones (through attributes, plain containers and '
                     'weak references) or added explicitly, each under an id of this database (same harness as C14 roundtrip)',
